@@ -68,6 +68,18 @@ fn default_history_size() -> usize {
 
 impl MetricsServer {
     pub fn init(&mut self) -> Result<(), Error> {
+        // the router panics on a prefix it can not nest, and the header layer on an illegal value:
+        // refuse them while the configuration is checked
+        ensure!(
+            self.api_prefix.starts_with('/') && !self.api_prefix.contains('*'),
+            "apiPrefix must start with '/' and must not contain '*': {}",
+            self.api_prefix
+        );
+        ensure!(
+            HeaderValue::from_str(&self.cors).is_ok(),
+            "cors is not a valid header value: {:?}",
+            self.cors
+        );
         if let Some(ui) = &self.ui {
             #[cfg(feature = "embedded-ui")]
             if ui == "<embedded>" {
